@@ -211,7 +211,7 @@ func (cr *caseRun) opPub(t int, n int, deferred bool, viaHTTP bool) {
 	if deferred {
 		cr.tag("deferred-publish")
 	}
-	cr.ev(fmt.Sprintf("EOp (OPub %d %s [%s] %d %s %s) %s", t, b(teph(t)), strings.Join(ids, ";"), total, z(dms*1000000), z(now), resp))
+	cr.ev(fmt.Sprintf("EOp (OPub %d %s [%s]%%N %d %s %s) %s", t, b(teph(t)), strings.Join(ids, ";"), total, z(dms*1000000), z(now), resp))
 	cr.after()
 }
 
@@ -536,7 +536,7 @@ func (cr *caseRun) doScan(t, c int, inflight bool, ahead time.Duration) {
 	}
 	cr.ev(fmt.Sprintf("EOp (%s %d %d %s) %s", name, t, c, z(at), resp))
 	if ok {
-		cr.ev(fmt.Sprintf("EExpired %d %d %s [%s]", t, c, b(inflight), strings.Join(expired, ";")))
+		cr.ev(fmt.Sprintf("EExpired %d %d %s [%s]%%N", t, c, b(inflight), strings.Join(expired, ";")))
 	}
 	cr.after()
 }
@@ -567,7 +567,7 @@ func (cr *caseRun) recordMeta() {
 		}
 		ts = append(ts, fmt.Sprintf("(%d, [%s])", tid(t.Name), strings.Join(cs, ";")))
 	}
-	cr.ev(fmt.Sprintf("EMeta [%s]", strings.Join(ts, ";")))
+	cr.ev(fmt.Sprintf("EMeta [%s]%%N", strings.Join(ts, ";")))
 }
 
 func (cr *caseRun) opRestart() {
